@@ -29,6 +29,26 @@ _BUILTINS = set(dir(builtins))
 # ----------------------------------------------------------------------------------------------
 # loader
 # ----------------------------------------------------------------------------------------------
+class _DropAnnotations(ast.NodeTransformer):
+    """annotations have no run-time effect on the analysed behaviour: `x: T = v` is `x = v`, a bare `x: T` binds nothing,
+    parameter and return annotations are dropped (so that every rule sees one assignment form)"""
+
+    def visit_AnnAssign(self, node):
+        self.generic_visit(node)
+        if node.value is None:
+            return ast.copy_location(ast.Pass(), node)
+        return ast.copy_location(ast.Assign(targets=[node.target], value=node.value, type_comment=None), node)
+
+    def visit_arg(self, node):
+        node.annotation = None
+        return node
+
+    def visit_FunctionDef(self, node):
+        self.generic_visit(node)
+        node.returns = None
+        return node
+
+
 class Module:
     def __init__(self, name, relpath, source):
         self.name, self.relpath, self.source = name, relpath, source
@@ -37,7 +57,10 @@ class Module:
             self.tree = ast.parse(source)
         except SyntaxError as e:
             raise AnalysisError("unit does not parse: %s: %s" % (relpath, e))
+        self.tree = _DropAnnotations().visit(self.tree)
+        ast.fix_missing_locations(self.tree)
         self.imports = {}      # local name -> qualified name
+        self.module_aliases = set()     # qualified names bound by `import X [as Y]`: X.attr is the global X.attr
         self.funcs = {}        # qualified (within module) -> Func
         self.classes = {}      # class name -> ast.ClassDef
         self.globals = {}      # module-level assigned names -> value ast
@@ -50,6 +73,7 @@ class Module:
             elif isinstance(st, ast.Import):
                 for a in st.names:
                     self.imports[a.asname or a.name.split('.')[0]] = a.name if a.asname else a.name.split('.')[0]
+                    self.module_aliases.add(a.name if a.asname else a.name.split('.')[0])
             elif isinstance(st, ast.FunctionDef):
                 self.funcs[st.name] = Func(self, st, st.name, None)
             elif isinstance(st, ast.ClassDef):
@@ -908,6 +932,8 @@ class TermBuilder:
             return self.var(e.id)
         if isinstance(e, ast.Attribute):
             base = b(e.value)
+            if base[0] == 'g' and base[1] in self.f.module.module_aliases:
+                return ('g', base[1] + '.' + e.attr)            # np.where is numpy.where
             if e.attr == 'size' and base[0] == 'sub' and base[2] == ('c', 0) and base[1][0] == 'call' and \
                     base[1][1][0] == 'g' and base[1][1][1] in ('numpy.where', 'numpy.nonzero'):
                 return ('call', ('g', 'builtins.len'), (base,), ())     # where(c)[0].size is len(where(c)[0])
@@ -1048,7 +1074,9 @@ def item(t, i):
             if i == 1:
                 return ('iter', src[2][0], t[2])
             if i == 0:
-                return mk_index(src[2][0], t[2])
+                start = src[2][1] if len(src[2]) > 1 else dict(src[3]).get('start')
+                base = mk_index(src[2][0], t[2])
+                return base if start is None or start == ('c', 0) else fold_bin('+', base, start)
         if src[0] == 'call' and src[1] == ('g', 'builtins.zip') and i < len(src[2]):
             return ('iter', src[2][i], t[2])
     if t[0] == 'call' and t[1] == ('g', 'builtins.divmod') and len(t[2]) == 2 and not t[3] and i in (0, 1):
